@@ -153,7 +153,10 @@ impl<L: Language> SerializableRuleConfig<L> {
         .core
         .get_matcher_with_hint(env.clone(), CheckHint::Rewriter(&vars))
         .map_err(|e| RuleConfigError::Rewriter(e, val.id.clone()))?;
-      reg.insert_rewriter(&val.id, rewriter);
+      // e.g. a rewriter whose rule `matches` a local util named like the rewriter itself
+      reg
+        .try_insert_rewriter(&val.id, rewriter)
+        .map_err(|e| RuleConfigError::Rewriter(RuleCoreError::Utils(e.into()), val.id.clone()))?;
     }
     check_rewriters_in_transform(rule, reg.get_rewriters())?;
     Ok(())
